@@ -54,7 +54,7 @@ type c28GenGrammar struct {
 }
 
 func (g *c28GenGrammar) toks() []c28Tok {
-	return append([]c28Tok{{"a", ""}, {"b", ""}, {"c", ""}, {"d", ""}}, g.extraTok...)
+	return append([]c28Tok{{"a", "", false}, {"b", "", false}, {"c", "", false}, {"d", "", false}}, g.extraTok...)
 }
 
 func (g *c28GenGrammar) declared() []string {
@@ -73,10 +73,14 @@ func (g *c28GenGrammar) source() string {
 		if t.id != "" {
 			fmt.Fprintf(&sb, " (%s)", t.id)
 		}
+		attr := ""
+		if t.space {
+			attr = " (space)"
+		}
 		if i < 4 {
 			fmt.Fprintf(&sb, ": /%s/\n", t.name)
 		} else {
-			fmt.Fprintf(&sb, ": /q%dz/\n", i)
+			fmt.Fprintf(&sb, ": /q%dz/%s\n", i, attr)
 		}
 	}
 	sb.WriteString("\n:: parser\n\n%flag A = false;\n%flag B = false;\n\ninput :")
@@ -234,7 +238,7 @@ func c28Spellings(id string, style ident.Style) []string {
 func (c *Ctx) c28GenProbe(findings bool) {
 	g := &c28GenGrammar{decls: []c28GenDecl{{"u", 3, []string{""}}}}
 	g0 := c28GenCompile(g)
-	g.extraTok = []c28Tok{{"u_1", ""}}
+	g.extraTok = []c28Tok{{"u_1", "", false}}
 	c.c28GenCase(g, g0, "probe: terminal name vs midrule", findings)
 }
 
@@ -297,14 +301,14 @@ func (c *Ctx) c28Generated(findings bool) {
 			sp := c28Spellings(target.id, ident.UpperCase)
 			switch {
 			case len(sp) > 0 && r.Intn(3) != 0:
-				g.extraTok = append(g.extraTok, c28Tok{sp[r.Intn(len(sp))], ""})
+				g.extraTok = append(g.extraTok, c28Tok{sp[r.Intn(len(sp))], "", r.Intn(4) == 0})
 				inject = "terminal name vs " + kind
 			case c28TmName(target.id) && target.id[0] != '\'' && target.id[0] != '"':
 				id := target.id
 				if r.Intn(2) == 0 {
 					id = strings.ToLower(id) // goes through Produce(UpperCase)
 				}
-				g.extraTok = append(g.extraTok, c28Tok{fmt.Sprintf("k%d", len(g.extraTok)), id})
+				g.extraTok = append(g.extraTok, c28Tok{fmt.Sprintf("k%d", len(g.extraTok)), id, r.Intn(4) == 0})
 				inject = "terminal explicit ID vs " + kind
 			}
 		} else {
@@ -323,7 +327,7 @@ func (c *Ctx) c28Generated(findings bool) {
 	}
 	if r.Intn(6) == 0 {
 		name, id := c28GramName(r, []string{"x", "y", "b"}, false, findings)
-		g.extraTok = append(g.extraTok, c28Tok{name, id})
+		g.extraTok = append(g.extraTok, c28Tok{name, id, false})
 	}
 	c.c28GenCase(g, g0, inject, findings)
 }
@@ -353,6 +357,9 @@ func (c *Ctx) c28GenCase(g *c28GenGrammar, g0 c28GenResult, inject string, findi
 		id := "-"
 		if t.id != "" {
 			id = hexs([]byte(t.id))
+		}
+		if t.space {
+			id += ":s"
 		}
 		tparts = append(tparts, hexs([]byte(t.name))+":"+id)
 	}
